@@ -157,6 +157,9 @@ type unitCase struct {
 	Stack     string  `json:"stack,omitempty"`   // e2e: h1-cl | h1-chunked | h1-close | h2 | h3
 	GapMS     int     `json:"gap_ms,omitempty"`  // e2e: pause between segments
 	HighLevel bool    `json:"high_level,omitempty"` // e2e: Client.R().Get + Response.Bytes()
+	Middleware  string `json:"transport_middleware,omitempty"` // e2e: pass | wrap (re-wraps resp.Body)
+	CloneClient bool   `json:"clone_client,omitempty"`         // e2e: the client is a Clone() of the configured one
+	SetCL       bool   `json:"set_content_length,omitempty"`   // e2e: h2/h3 origins declare Content-Length
 	Gzip      bool    `json:"gzip,omitempty"` // e2e: served gzip-compressed (decompressed by the transport before the charset stage)
 	HLMode    string  `json:"high_level_mode,omitempty"` // bytes | buffer (SetOutput(*bytes.Buffer)) | writer (SetOutput(plain io.Writer))
 }
@@ -178,6 +181,7 @@ type obs struct {
 	OutLen  int       `json:"out_len"`
 	EndErr  string    `json:"end_err"`
 	Fatal   string    `json:"fatal,omitempty"`
+	Sanity  string    `json:"sanity,omitempty"` // e2e: something about the exchange is off although nothing crashed (judged after the delivered bytes)
 	Closed  bool      `json:"closed"`
 	NetSeen [][]byte  `json:"-"` // e2e: the network reads as seen underneath the decoder
 	NetEOFLast bool   `json:"net_eof_with_last"`
